@@ -41,7 +41,7 @@ id in blocks, handed-in form, position).";
 pub fn run(args: &Args, report: &Report) {
     let ctx = Ctx::new(args, report);
     let shards = args.by_tier(16, 32);
-    let sessions = args.by_tier(5, 50);
+    let sessions = args.by_tier(40, 480);
     let blocks = args.by_tier(14u32, 24);
     let c = ctx.clone();
     for_each_session(args, report, shards, sessions, move |case, rng| {
@@ -228,15 +228,17 @@ pub fn run(args: &Args, report: &Report) {
             }
         }
     });
-    report.require("c06.nontrivial_blocks", args.by_tier(300, 3_000));
-    report.require("c06.resubmissions_skipped", args.by_tier(400, 4_000));
-    report.require("c06.resubmission_skipped_collision.same_block", args.by_tier(30, 300));
-    report.require("c06.resubmission_skipped_collision.next_block", args.by_tier(60, 600));
-    report.require("c06.resubmission_skipped_collision.many_blocks_later", args.by_tier(60, 600));
-    report.require("c06.validate_rejected.same_block_twice", args.by_tier(300, 3_000));
-    report.require("c06.validate_rejected.previous_block_tx", args.by_tier(200, 2_000));
-    report.require("c06.validate_rejected.previous_block_mint", args.by_tier(300, 3_000));
-    report.require("c06.validate_rejected_with_collision", args.by_tier(300, 3_000));
+    if args.replay.is_none() {
+        report.require("c06.nontrivial_blocks", args.by_tier(300, 3_000));
+        report.require("c06.resubmissions_skipped", args.by_tier(400, 4_000));
+        report.require("c06.resubmission_skipped_collision.same_block", args.by_tier(30, 300));
+        report.require("c06.resubmission_skipped_collision.next_block", args.by_tier(60, 600));
+        report.require("c06.resubmission_skipped_collision.many_blocks_later", args.by_tier(60, 600));
+        report.require("c06.validate_rejected.same_block_twice", args.by_tier(300, 3_000));
+        report.require("c06.validate_rejected.previous_block_tx", args.by_tier(200, 2_000));
+        report.require("c06.validate_rejected.previous_block_mint", args.by_tier(300, 3_000));
+        report.require("c06.validate_rejected_with_collision", args.by_tier(300, 3_000));
+    }
     report.finish(
         args,
         "exploration",
